@@ -1,8 +1,9 @@
 from contracts.weakrefs import InsertOnce, GetCleanRef, RemoveNoneReferents
-CONTRACTS = [InsertOnce, GetCleanRef, RemoveNoneReferents]
+from contracts.identity import IdentifierHistories, WorkspaceRegister
+CONTRACTS = [InsertOnce, GetCleanRef, RemoveNoneReferents, WorkspaceRegister, IdentifierHistories]
 
 MANIFEST = {
     "category": "proof",
-    "text": "Every obligation generated from the registry primitives (insert_once, get_clean_ref, remove_none_referents: whole-map postconditions, frames, exceptional posts, one loop invariant) is discharged by z3 for all registries, keys and liveness patterns; exhaustive small-scope native runs cross-check the same contracts on the real functions.",
-    "note": "T-weak (a weak reference is alive or dead, fixed per call), T-py dict/list semantics and the pos/rank selection axioms are assumed and audited; Workspace.register / copy paths are not yet under contract (listed in evidence).",
+    "text": "Registry primitives (insert_once, get_clean_ref, remove_none_referents: whole-map postconditions, frames, exceptional posts, one loop invariant) are discharged for all registries, keys and liveness patterns. Workspace.register is proved over five symbolic registries, using those primitives' contracts at the call sites: under the workspace invariant (an identifier is live in at most one entity registry) a request is accepted only when no other live entity of any kind holds the identifier, the entity then owns it in the registry of its own kind, the invariant holds again, live entries of every other key and registry are untouched, and a refusal leaves all five registries as they were. The history quantifier (create / copy / remove / re-create, one or two workspaces, refusals without side effects on the tree, copies keeping or renewing identifiers, one type per class) is a bounded native stand-in over the public API.",
+    "note": "T-weak (a weak reference is alive or dead, fixed per call), T-py dict/list semantics and the pos/rank selection axioms are assumed and audited; registry typing (a registry only refers to entities of its own kind) is a precondition; Entity.__init__ (refusal before the parent link), copy_to_parent / copy_property_groups / EntityType.find_or_create are only covered by the bounded histories.",
 }
